@@ -25,10 +25,10 @@ let hex_of_n (x : n) : string =
 type leafv = { kind : char; ik : int; fk : float; sk : string; hw : n; hwtxt : string }
 let leaf_h (a : leafv) : n = a.hw
 let leaf_eqb (a : leafv) (b : leafv) : bool =
-  a.kind = b.kind && (match a.kind with 'f' | 'd' -> a.fk = b.fk | 's' -> a.sk = b.sk | _ -> a.ik = b.ik)
+  a.kind = b.kind && (match a.kind with 'f' | 'd' | 'e' -> a.fk = b.fk | 's' | 'w' | 'x' | 'y' -> a.sk = b.sk | _ -> a.ik = b.ik)
 let leaf_ltb (a : leafv) (b : leafv) : bool =
   if a.kind <> b.kind then a.kind < b.kind
-  else (match a.kind with 'f' | 'd' -> a.fk < b.fk | 's' -> compare a.sk b.sk < 0 | _ -> a.ik < b.ik)
+  else (match a.kind with 'f' | 'd' | 'e' -> a.fk < b.fk | 's' | 'w' | 'x' | 'y' -> compare a.sk b.sk < 0 | _ -> a.ik < b.ik)
 
 exception Bad
 let parse_leaf (tok : string) : leafv =
@@ -43,9 +43,9 @@ let parse_leaf (tok : string) : leafv =
   if body = "" then raise Bad;
   let z = { kind; ik = 0; fk = 0.0; sk = ""; hw; hwtxt } in
   match kind with
-  | 'c' | 'h' | 'i' | 'u' | 'l' | 'b' -> (try { z with ik = int_of_string body } with _ -> raise Bad)
-  | 'f' | 'd' -> (try { z with fk = float_of_string body } with _ -> raise Bad)
-  | 's' -> { z with sk = String.concat "" (List.map (fun b -> String.make 1 (Char.chr (int_of_byte b))) (str_of_hex body)) }
+  | 'c' | 'h' | 'i' | 'u' | 'l' | 'b' | 'a' | 'k' | 'g' | 'n' | 'm' | 'o' | 'q' | 'j' -> (try { z with ik = int_of_string body } with _ -> raise Bad)
+  | 'f' | 'd' | 'e' -> (try { z with fk = float_of_string body } with _ -> raise Bad)
+  | 's' | 'w' | 'x' | 'y' -> { z with sk = String.concat "" (List.map (fun b -> String.make 1 (Char.chr (int_of_byte b))) (str_of_hex body)) }
   | _ -> raise Bad
 
 (* recursive descent over  leaf | T(..) | P(a,b) | V<k>(v) | U(v) | O(..)  ; values in a list are separated by ';' *)
@@ -211,6 +211,8 @@ let maxn = 6
 let iter_valid en kind mode n =
   match kind with
   | "vec" | "list" | "map" | "fv" -> List.mem mode ["l"; "c"; "r"; "m"; "k"; "s"; "q"]
+  | "deq" -> List.mem mode ["l"; "c"; "r"; "m"; "k"; "s"; "q"]
+  | "set" | "str" -> List.mem mode ["c"; "r"; "m"; "k"; "s"; "q"]
   | "arr" -> n <= maxn && List.mem mode ["l"; "c"; "r"; "m"; "k"; "s"; "q"]
   | "carr" -> n >= 1 && n <= maxn && List.mem mode ["l"; "c"]
   | "il" -> n <= maxn && (match mode with "r" -> n >= 1 | "m" -> true | "l" | "c" -> en | _ -> false)
@@ -256,6 +258,7 @@ let reuse_valid sc kind mode =
   (match sc with
    | "en2" | "rv2" | "enbe" | "rvbe" -> mode = "l" || mode = "r"
    | "enen" | "enrv" | "enmod" | "rvmod" -> mode = "l"
+   | "nest" | "cad" -> mode = "l" || mode = "r"
    | _ -> false)
 let inner_str f = function Done vs -> f vs | OutOfFuel -> "HANG" | BadDeref -> "CRASH(model:bad-deref)"
 let nn_str fin l =
@@ -269,6 +272,12 @@ let reuse_model sc kind mode elems =
   | "enrv" -> out_str (fun l -> "NN " ^ nn_str (inner_str wire_of_ints) l) (enumerate_reverse_nested elems)
   | "enmod" -> out_str (fun (vs, c) -> Printf.sprintf "V %s A - C %s" (vis_e vs) (wire_of_ints c)) (enumerate_after_modify gm elems)
   | "rvmod" -> out_str (fun (vs, c) -> Printf.sprintf "V %s A - C %s" (wire_of_ints vs) (wire_of_ints c)) (reverse_after_modify gm elems)
+  | "nest" -> (* enumerate over the reversed range: the composition of the two loops *)
+      (match reverse_rvalue elems with
+       | Done r -> out_str (fun vs -> Printf.sprintf "V %s A - C -" (vis_e vs)) (enumerate_rvalue r)
+       | OutOfFuel -> "HANG" | BadDeref -> "CRASH(model:bad-deref)")
+  | "cad" -> out_str (fun r -> if mode = "l" then Printf.sprintf "V2 %s %s" (wire_of_ints r) (wire_of_ints r)
+                               else out_str (fun e -> Printf.sprintf "V2 %s %s" (wire_of_ints r) (vis_e e)) (enumerate_rvalue elems)) (reverse_rvalue elems)
   | "enbe" -> let b = b01 (enumerate_nonempty_test elems) in
               out_str (fun (vs, _) -> Printf.sprintf "BE %s%s%s %d" b b b (List.length vs)) (enumerate_for (fun _ v -> v) elems)
   | "rvbe" -> let b = b01 (reverse_nonempty_test elems) in
@@ -286,6 +295,8 @@ let reuse_oracle sc kind mode elems obs =
     | "enen" | "enrv" ->
         let inner = if sc = "enen" then en elems else rv elems in
         "NN " ^ (if n = 0 then "." else String.concat "|" (List.map (fun (i, v) -> Printf.sprintf "%d:%d=%s" (int_of_nat i) v inner) (spec_enumerate elems)))
+    | "nest" -> Printf.sprintf "V %s A - C -" (en (List.rev elems))
+    | "cad" -> if mode = "l" then Printf.sprintf "V2 %s %s" (rv elems) (rv elems) else Printf.sprintf "V2 %s %s" (rv elems) (en elems)
     | "enmod" -> let c = List.map gm elems in Printf.sprintf "V %s A - C %s" (en c) (wire_of_ints c)
     | "rvmod" -> let c = List.map gm elems in Printf.sprintf "V %s A - C %s" (rv c) (wire_of_ints c)
     | _ -> Printf.sprintf "BE %s%s%s %d" ne ne ne n in
@@ -400,7 +411,7 @@ let mi_line en elems =
     else (match reverse_rvalue elems with Done vs -> (dotted (vis_r_plain vs), List.map string_of_int vs) | _ -> ("HANG", [])) in
   let suffix = dotted (String.concat "," (drop (n / 2) items)) in
   let base = Printf.sprintf "MI %s %s %s %s %s %s" full full full suffix suffix full in
-  if en then base
+  if en then base ^ " K " ^ full
   else Printf.sprintf "%s X %s %d %s %s" base full n full (if n = 0 then "." else List.nth items (n / 2))
 let mi_valid kind mode = List.mem kind ["vec"; "list"; "map"; "fv"] && (mode = "l" || mode = "r")
 (* the SPEC side: the same line computed from spec_enumerate / rev *)
@@ -409,18 +420,25 @@ let mi_spec en elems =
   let items = if en then List.map (fun (i, v) -> Printf.sprintf "%d:%d" (int_of_nat i) v) (spec_enumerate elems) else List.map string_of_int (List.rev elems) in
   let full = dotted (String.concat "," items) and suffix = dotted (String.concat "," (drop (n / 2) items)) in
   let base = Printf.sprintf "MI %s %s %s %s %s %s" full full full suffix suffix full in
-  if en then base else Printf.sprintf "%s X %s %d %s %s" base full n full (if n = 0 then "." else List.nth items (n / 2))
+  if en then base ^ " K " ^ full else Printf.sprintf "%s X %s %d %s %s" base full n full (if n = 0 then "." else List.nth items (n / 2))
 
 (* ---- element types constructible from their own container: the visits are still the range's elements ---- *)
 let et_valid ty kind mode n =
-  List.mem ty ["any"; "val"; "ilt"] &&
-  (match kind with "vec" | "list" -> mode = "l" || mode = "r" | "il" -> mode = "r" && n >= 1 && n <= 4 | _ -> false)
+  List.mem ty ["any"; "val"; "ilt"; "up"] &&
+  (match kind with "vec" | "list" -> mode = "l" || mode = "r" | "il" -> ty <> "up" && mode = "r" && n >= 1 && n <= 4 | _ -> false)
+(* move-only elements over an lvalue: the driver first replaces every element through the adaptor by tag + 1000 *)
+let et_elems ty mode elems = if ty = "up" && mode = "l" then List.map (fun v -> v + 1000) elems else elems
 let et_model en ty kind mode elems =
   if not (et_valid ty kind mode (List.length elems)) then "BADCASE" else
+  let elems = (if ty = "up" && mode = "l" then
+                 (match (if en then (match enumerate_for (fun _ v -> v + 1000) elems with Done (_, c) -> Some c | _ -> None)
+                         else (match reverse_for (fun v -> v + 1000) elems with Done (_, c) -> Some c | _ -> None)) with Some c -> c | None -> [])
+               else elems) in
   if en then out_str (fun vs -> Printf.sprintf "ET %d %s" (List.length vs) (dotted (vis_e_plain vs))) (enumerate_rvalue elems)
   else out_str (fun vs -> Printf.sprintf "ET %d %s" (List.length vs) (dotted (vis_r_plain vs))) (reverse_rvalue elems)
 let et_oracle en ty kind mode elems obs =
   if not (et_valid ty kind mode (List.length elems)) then obs = "BADCASE" else
+  let elems = et_elems ty mode elems in
   obs = Printf.sprintf "ET %d %s" (List.length elems)
           (dotted (if en then vis_e_plain (spec_enumerate elems) else vis_r_plain (List.rev elems)))
 
